@@ -2,6 +2,7 @@
 definition.  Asm.tla is the reference assembler; TraceAsm judges recorded
 assemblies of generated abstract programs."""
 import random
+import re
 from .. import common, genasm, tv
 
 BIG = 1 << 30
@@ -360,7 +361,7 @@ def run_c16(ck):
     rng = random.Random(ck.seed + 16)
     n = 2500 if quick else 60000
     cases = [genasm.gen_cond_program(rng) for _ in range(n)]
-    jobs = [{"mode": "drive", "files": {"main.asm": genasm.render_fns(P) + genasm.render_items(P["items"])},
+    jobs = [{"mode": "drive", "files": {"main.asm": genasm.render_fns(P) + genasm.render_items(P["items"], banks=P.get("banks", []))},
              "args": ["customasm", "main.asm", "-q", "-f", "binary", "-o", "out.bin"] + argv,
              "want": {"messages": False, "spans": False, "events": False}} for P, argv in cases]
     results = common.run_jobs(jobs, ck.wd + "/jobs")
@@ -396,6 +397,95 @@ def run_c16(ck):
     return ck.finish(rule="random condition trees (depth <= 3, #elif chains, conditions over constants declared before / after / inside other arms, "
                           "undecidable conditions over labels) x random defines (absent, booleans, 0, 1, -1, 16, hierarchical names, undeclared names); "
                           "distinct = program index")
+
+
+def inline_family(ck, quick, rng):
+    """C17 where sizes depend on values (outside the size-static fragment that Assemble decides): small programs over an
+    instruction set with a short and a long jump, 4-bit and 8-bit fillers, macros with block labels referenced forwards and
+    backwards, and the same program with every call written out in place.  Everything stays below address 0x10, so the
+    short jump is always valid in the end and only one layout is consistent; the two programs must agree (Outcomes.AllEqual)."""
+    isa = ("    jmp {a} => { assert(a < 0x10), 0x1 @ a`4 }\n    jmp {a} => 0xff @ a`%d\n    nib => 0x5\n    byt => 0xbb\n"
+           "    ldn {v} => 0x2 @ v`4\n    js {a} => { assert(a < 0x10), a`4 }\n    js {a} => 0xf @ a`8\n")
+    pairs = []
+    for k in range(150 if quick else 4000):
+        longw = rng.choice([4, 4, 16])
+        nmac = rng.randrange(1, 3)
+        macros = []
+        for m in range(nmac):
+            par = rng.random() < 0.5
+            labs = ["end", "top"][:rng.randrange(0, 3)]
+            lines, placed = [], []
+            for _ in range(rng.randrange(1, 5)):
+                c = rng.random()
+                pool = labs + (["{p}"] if par else [])
+                if c < 0.35 and pool:
+                    # (js is 4 bits wide in its short form: what follows it sits on a boundary only once it has resolved)
+                    lines.append(rng.choice(["jmp ", "jmp ", "js "]) + rng.choice(pool))
+                elif c < 0.5 and par:
+                    lines.append("ldn {p}")
+                elif c < 0.75:
+                    lines.append("nib")
+                else:
+                    lines.append("byt")
+            for lab in labs:
+                lines.insert(rng.randrange(0, len(lines) + 1), lab + ":")
+            macros.append({"name": "mc%d" % m, "par": par, "lines": lines, "labs": labs})
+        main = []
+        glabels = ["ga", "gb"][:rng.randrange(0, 3)]
+        for _ in range(rng.randrange(1, 4)):
+            c = rng.random()
+            if c < 0.6:
+                m = rng.choice(macros)
+                arg = rng.choice(glabels + [str(rng.randrange(0, 16)), str(rng.randrange(0, 40))]) if m["par"] else None
+                main.append(("call", m, arg))
+            elif c < 0.8:
+                main.append(("line", rng.choice(["nib", "byt"] + ["jmp " + g for g in glabels]), None))
+            else:
+                main.append(("line", "nib", None))
+        order = list(main)
+        for g in glabels:
+            order.insert(rng.randrange(0, len(order) + 1), ("line", g + ":", None))
+        head = "#ruledef\n{\n" + isa % longw
+        mtext = head + "".join("    %s%s => asm\n    {\n%s    }\n" % (m["name"], " {p}" if m["par"] else "",
+                                                                         "".join("        %s\n" % ln for ln in m["lines"])) for m in macros) + "}\n"
+        itext = head + "}\n"
+        ncall = 0
+        for kind, a, arg in order:
+            if kind == "line":
+                mtext += a + "\n"
+                itext += a + "\n"
+            else:
+                mtext += "%s%s\n" % (a["name"], (" " + arg) if a["par"] else "")
+                ncall += 1
+                for ln in a["lines"]:
+                    t = ln.replace("{p}", arg or "")
+                    for lab in a["labs"]:
+                        t = re.sub(r"\b%s\b" % lab, "x%d_%s" % (ncall, lab), t)
+                    itext += t + "\n"
+        pairs.append((mtext, itext))
+    jobs = []
+    for mt, it in pairs:
+        for t in (mt, it):
+            jobs.append({"mode": "asm", "files": {"main.asm": t}, "roots": ["main.asm"], "want": {"messages": False, "spans": False, "events": False}})
+    res = common.run_jobs(jobs, ck.wd + "/inline")
+    ck.evaluations += len(jobs)
+    events = []
+    for k in range(len(pairs)):
+        a, b = res[2 * k], res[2 * k + 1]
+        if any(r.get("crash") or r.get("panic") for r in (a, b)):
+            ck.violation("panic:inline", {"source": pairs[k][0][:800]}, {"macro": pairs[k][0], "inlined": pairs[k][1]})
+            continue
+        runs = [{"budget": 0, "ok": not r.get("error"), "iters": 0, "out": (r.get("bits") or "") if not r.get("error") else ""} for r in (a, b)]
+        events.append({"ev": "inline", "case": k, "runs": runs})
+        ck.nontrivial_add(("inline", runs[0]["ok"], len(runs[0]["out"]) % 8 == 0, min(len(runs[0]["out"]) // 8, 12)))
+    failed = tv.judge(ck, "TraceOutcomes", "TraceOutcomes.cfg", events, ck.wd, tag="inline")
+    ck.traces += len(events)
+    for case in sorted(failed)[:20]:
+        e = next(x for x in events if x["case"] == case)
+        ck.violation("Outcomes:inline", {"macro_program": pairs[case][0], "inlined_program": pairs[case][1],
+                                          "macro": [e["runs"][0]["ok"], e["runs"][0]["out"]], "inlined": [e["runs"][1]["ok"], e["runs"][1]["out"]]},
+                     {"macro": pairs[case][0], "inlined": pairs[case][1], "runs": e["runs"]})
+    ck.extra["inline_pairs"] = {"pairs": len(events), "accepted": sum(1 for e in events if e["runs"][0]["ok"])}
 
 
 def run_c17(ck):
@@ -439,6 +529,20 @@ def run_c17(ck):
                     hit = True
         return hit
 
+    def typed_macro_param_with_forward_label(P):
+        # syntactic witness for the known finding F68: a macro with a TYPED parameter is called with an operand that names
+        # a label declared further down (the block has no size before it resolves, so the label starts too low)
+        typed = {r["pat"][0]["lc"] for r in P["rules"] if r["prod"].get("k") == "asm"
+                 and any(x.get("p") == "par" and x.get("ty") in ("u", "s", "i") for x in r["pat"])}
+        later = set()
+        for it in reversed(P["items"]):
+            if it["k"] == "label" and it["lvl"] == 0:
+                later.add(it["name"])
+            elif it["k"] == "instr" and it["toks"] and it["toks"][0].get("lc") in typed:
+                if any(t["k"] == "id" and t["s"] in later for t in it["toks"][1:]):
+                    return True
+        return False
+
     def local_into_textual_macro(P):
         # syntactic witness for the known finding F45: a macro passes one of its by-value locals, `{d}`, to another
         # macro, and that macro substitutes the parameter textually into its own asm block
@@ -477,12 +581,15 @@ def run_c17(ck):
                 tag += ":local-passed-into-textual-macro"
             elif tag == "bits" and local_into_textual_macro(progs[case]) and local_captured_by_textual_macro(progs[case]):
                 tag += ":local-passed-into-textual-macro"
+            elif tag == "rejected-but-accepted-by-rules" and typed_macro_param_with_forward_label(progs[case]):
+                tag += ":typed-macro-parameter-with-forward-label"
             elif tag == "rejected-but-accepted-by-rules" and forward_label_in_macro_call(progs[case]):
                 tag += ":macro-call-with-forward-label"
             ck.violation("TraceAsm:C17:" + tag, {"verdict": tag, "source": jobs[case]["files"]["main.asm"],
                                                  "observed_ok": not results[case].get("error"),
                                                  "bits": results[case].get("bits", "")[:200]},
                          {"job": jobs[case], "prog": progs[case], "spec": "TraceAsm"})
+    inline_family(ck, quick, random.Random(ck.seed + 1717))
     skipped = sum(v for kk, v in ck.extra.items() if kk.startswith("skipped:"))
     ck.nontrivial = set(range(len(events) - skipped))
     ck.assumptions += ["an asm block is specified as its lines assembled in place (textual substitution of arguments, positions advancing, "
